@@ -50,7 +50,7 @@ fn during_unwind<R: Default>(f: impl FnOnce() -> R) -> R {
     slot.unwrap_or_default()
 }
 
-fn pair(a: usize, b: usize, form: &str, types: &Value, primed: bool) {
+fn pair(a: usize, b: usize, form: &str, types: &Value, primed: bool, checked_first: bool) {
     let before0 = entry(fam::sig_addr(a));
     let mut inj = in_lib(InjectorPP::new);
     if primed {
@@ -60,6 +60,18 @@ fn pair(a: usize, b: usize, form: &str, types: &Value, primed: bool) {
             in_lib(|| unsafe {
                 let (p, _) = fam::sig_fake(b, "unchecked").unwrap();
                 inj.when_called_unchecked(fam::sig_target_unchecked(a)).will_execute_raw_unchecked(p)
+            })
+        }));
+        interpose::set_in_lib(false);
+    }
+    if checked_first {
+        // ... nor on an earlier, perfectly valid checked installation of the replacement's own type in the same injector
+        // (another function of type tb faked by a tb replacement)
+        let _ = catch_unwind(AssertUnwindSafe(|| {
+            in_lib(|| {
+                if let Some((p, _)) = fam::sig_fake(b, "func") {
+                    inj.when_called(fam::sig_target(b)).will_execute_raw(p)
+                }
             })
         }));
         interpose::set_in_lib(false);
@@ -109,7 +121,7 @@ fn pair(a: usize, b: usize, form: &str, types: &Value, primed: bool) {
     in_lib(|| drop(inj));
     let restored = entry(fam::sig_addr(a)) == before0;
     let orig_ok = if a == b || verdict == "refused" { fam::sig_call(a) == 100 + a as u32 } else { true };
-    emit(json!({"ev":"Pair","form":form,"primed":primed,"a":a,"b":b,"ta":types[a],"tb":types[b],"verdict":verdict,"cls":cls,"msg":msg,
+    emit(json!({"ev":"Pair","form":form,"primed":primed,"checked_first":checked_first,"a":a,"b":b,"ta":types[a],"tb":types[b],"verdict":verdict,"cls":cls,"msg":msg,
         "touched":touched,"works":works,"restored":restored && orig_ok}));
 }
 
@@ -119,6 +131,7 @@ fn run_pairs(sc: &Value) {
     let n = types.as_array().map(|x| x.len()).unwrap_or(0).min(fam::NFAM);
     let form = sc.get("form").and_then(|x| x.as_str()).unwrap_or("func").to_string();
     let primed = sc.get("primed").and_then(|x| x.as_bool()).unwrap_or(false);
+    let checked_first = sc.get("checked_first").and_then(|x| x.as_bool()).unwrap_or(false);
     for a in 0..n {
         for b in 0..n {
             let f2 = match form.as_str() {
@@ -131,7 +144,8 @@ fn run_pairs(sc: &Value) {
             if (form == "null-fake" || form == "null-target") && a != b {
                 continue;
             }
-            pair(a, b, &form, &types, primed);
+            if checked_first && a == b { continue; }
+            pair(a, b, &form, &types, primed, checked_first);
         }
     }
 }
